@@ -192,15 +192,15 @@ def start_table(R, ctx):
                 if not c:
                     bad = f"{fn_} is not called"
                     continue
-                flag = c[0][1][2]
-                given = c[0][1][1] if nm == 'Numbers' else c[0][1][3]
+                flag = eff_arg(f, c[0], 'rotate_rcurrent', r'^bool$')
+                given = eff_arg(f, c[0], 'o_index_for_rcurrent', r'^std::option::Option<u32>$') if nm == 'Numbers' else eff_arg(f, c[0], 'o_date_for_rotated_file', r'^std::option::Option<&')
                 # rotate flag = !config.append (as a decided boolean)
                 if app is None or flag != str(not app):
                     bad = f"left-over current file: rotate flag is {flag} for append={app}; documented: rotate iff not appending"
                 if 'None' not in given:
                     bad = f"start-up passes {given} instead of None (index / date must come from the directory)"
                 if nm != 'Numbers':
-                    infix = c[0][1][1]
+                    infix = eff_arg(f, c[0], 'current_infix', r'^&str$')
                     op = [e for e in r.effects if e[0].endswith('open_log_file')]
                     if op and c01.norm(infix).replace('&', '') not in r.long(op[0][1][1]).replace('&', '') and 'rCURRENT' not in infix:
                         bad = "the file opened is not the one with the current infix"
@@ -209,7 +209,7 @@ def start_table(R, ctx):
                 if not lt:
                     bad = "latest_timestamp_file is not consulted"
                     continue
-                flag = lt[0][1][1]
+                flag = eff_arg(f, lt[0], 'rotate', r'^bool$')
                 if app is None or flag != str(not app):
                     bad = f"latest_timestamp_file rotate flag is {flag} for append={app}; documented: continue the latest file iff appending"
         R.check('R06.3', f"{b.path}|start|{key[0]}|{key[1]}", not bad, f"{len(lst)} rows agree", f"start with naming {key[0]}" + (f"(current_infix {key[1]})" if key[1] else '') + f": {bad}",
@@ -222,12 +222,13 @@ def start_table(R, ctx):
         for e in r.effects:
             if e[0].endswith('index_for_rcurrent'):
                 n += 1
-                if e[1][2] != 'True' or 'Some' not in e[1][1]:
-                    bad = f"index_for_rcurrent({e[1][1]}, {e[1][2]}) at rotation; documented (Some(stored index), true)"
+                a_flag, a_idx = eff_arg(f, e, 'rotate_rcurrent', r'^bool$'), eff_arg(f, e, 'o_index_for_rcurrent', r'^std::option::Option<u32>$')
+                if a_flag != 'True' or 'Some' not in a_idx:
+                    bad = f"index_for_rcurrent({a_idx}, {a_flag}) at rotation; documented (Some(stored index), true)"
             if e[0].endswith('creation_timestamp_of_currentfile'):
                 n += 1
-                if e[1][2] != 'True':
-                    bad = f"creation_timestamp_of_currentfile rotate flag {e[1][2]} at rotation"
+                if eff_arg(f, e, 'rotate_rcurrent', r'^bool$') != 'True':
+                    bad = f"creation_timestamp_of_currentfile rotate flag {eff_arg(f, e, 'rotate_rcurrent', r'^bool$')} at rotation"
     R.check('R06.5', f"{rb.path}|rotate-flags", not bad and n >= 2, f"{n} rotation-time calls with rotate = true and the stored index", f"rotation: {bad}", where=rb.loc())
     # latest_timestamp_file: rotate -> now; else newest parsable listed timestamp, else now
     lb = ctx.body(r'::timestamps::latest_timestamp_file$')
